@@ -47,6 +47,17 @@ register("C12",
          "TLA+ model (Msm.tla) checked by TLC + TLC trace validation of every implementation result (code->spec)",
          "DESIGN.md §4 C12")
 
+register("C17",
+         "GridName.tla defines the outcome RELATION (Universal for every name, Forced on the classes the statement pins down) "
+         "and a reference normalisation table; TLC shows the table lies inside the relation and is idempotent for every name "
+         "of up to 3 tokens from a 19-token alphabet x both roles. The real GridNameParser is then run on every (name, role) "
+         "of up to 3 (quick, 14 478 pairs) / 4 (thorough, 275 120 pairs) tokens, re-parsed, the grid constructed from the "
+         "standard name for N<=15, and every record is validated by TLC against the relation.",
+         "Exhaustive over the stated token alphabet and length bound; names with a dimension tag are left unspecified as in "
+         "the statement.",
+         "TLA+ relation + reference table model-checked by TLC; exhaustive TLC trace validation of the implementation (code->spec)",
+         "DESIGN.md §4 C17")
+
 ALL = [f"C{i:02d}" for i in range(1, 21)]
 
 
